@@ -91,6 +91,37 @@ func c10CheckCiphertext(key, p, ct []byte, chunks [][]byte) error {
 }
 
 func c10Oracle(in c10In) probe.Outcome {
+	// The caller holds its key in one buffer; it builds an object, then the buffer receives the NEXT key (same size) and another
+	// object is built from it: each object works with the key the buffer held when it was built.
+	if len(in.Key) == ref.Encrs[in.Encr].KeyLen {
+		buf := probe.Exact(in.Key)
+		first, err := c10New(in.Encr, buf)
+		if err != nil {
+			return probe.Fail("NewCrypto: %v", err)
+		}
+		key2 := make([]byte, len(buf))
+		for i := range buf {
+			key2[i] = ^in.Key[i] ^ byte(i)
+			buf[i] = key2[i]
+		}
+		second, err := c10New(in.Encr, buf)
+		if err != nil {
+			return probe.Fail("NewCrypto with the next key in the same buffer: %v", err)
+		}
+		p := []byte("two objects, one key buffer")
+		for i, o := range []struct {
+			c   probe.Crypto
+			key []byte
+		}{{second, key2}, {first, in.Key}} {
+			var ct []byte
+			if err := probe.Try(func() error { var e error; ct, e = o.c.Encrypt(probe.Exact(p)); return e }); err != nil {
+				return probe.Fail("Encrypt: %v", err)
+			}
+			if err := c10CheckCiphertext(o.key, p, ct, nil); err != nil {
+				return probe.Fail("two cipher objects built one after the other from ONE key buffer that held another key each time: object %d does not work with the key the buffer held when it was built: %v", 2-i, err)
+			}
+		}
+	}
 	key := probe.Exact(in.Key)
 	want := ref.Encrs[in.Encr].KeyLen
 	// the key as a caller holds it who cut it out of a longer stretch of keying material (prf+ output): more key octets follow
